@@ -701,7 +701,12 @@ func (ev *evaluator) selectField(base SV, sel string, x Expr) SV {
 		}
 		ft := f.Type()
 		// instantiate field types of generic structs: type parameters map to Hdr anyway
-		return SV{tSelect(ev.heap(hn, sortOf(ft)), obj), ft}
+		v := tSelect(ev.heap(hn, sortOf(ft)), obj)
+		if len(ev.bound) == 0 {
+			// heap values are well-typed (same fact the executor assumes on every load)
+			ev.fc.assume(ev.curState(), ev.fc.typeFact(ev.curState(), v, ft))
+		}
+		return SV{v, ft}
 	}
 	// promoted fields through embedded structs
 	for i := 0; i < s.NumFields(); i++ {
@@ -900,6 +905,25 @@ func (ev *evaluator) evalCall(x *ECall) SV {
 			return SV{slArr(t), nil}
 		}
 		return SV{slOff(t), nil}
+	case "at":
+		// at(s, k): element of the backing array of slice s at the ABSOLUTE index k (s[i] == at(s, off(s)+i));
+		// quantifying over absolute indices keeps triggers stable under re-slicing
+		base := ev.eval(x.Args[0])
+		bv, ok := base.V.(Term)
+		if !ok || bv.Sort != SSlice {
+			ev.fail("at() of non-slice")
+		}
+		idx, _ := ev.evalTerm(x.Args[1])
+		var et types.Type
+		es := SInt
+		if base.GT != nil {
+			if st, ok := unalias(base.GT).Underlying().(*types.Slice); ok {
+				et = st.Elem()
+				es = sortOf(et)
+			}
+		}
+		h := ev.heapRaw(elemHeapName(es), arrSort(SInt, arrSort(SInt, es)))
+		return SV{tSelect(tSelect(h, slArr(bv)), idx), et}
 	case "cur":
 		// cur(x): the current value of the local variable (or reassigned parameter) x of the function
 		// under verification, e.g. in a postcondition
